@@ -10,6 +10,7 @@ import (
 	"strconv"
 	"strings"
 	"sync"
+	"sync/atomic"
 	"time"
 
 	eb "github.com/jilio/ebu"
@@ -191,6 +192,9 @@ func classifyUpcast(rej core.SegReject) (string, string) {
 func validateUpcast(r *core.Run, name string, segs []core.Segment) {
 	r.ValidateSegments(name, "UpcastTrace", "", segs, func(rej core.SegReject) *core.Segment {
 		clause, scen := classifyUpcast(rej)
+		if m, ok := rej.Seg.Meta.(string); ok && strings.HasPrefix(m, "registrations racing with") {
+			scen = m
+		}
 		art, _ := json.MarshalIndent(map[string]any{"ops": rej.Seg.Meta, "first_unexplained_line": rej.Line, "event": json.RawMessage(rej.Text),
 			"before": rej.Prev, "trace": core.SegTrace(rej.Seg), "spec": "UpcastTrace"}, "", " ")
 		p := r.SaveReplay(rej.Seg.Label+".json", art)
@@ -254,6 +258,116 @@ func racingRegistrations(rnd *rand.Rand) [][]byte {
 	}
 	close(start)
 	wg.Wait()
+	return lines
+}
+
+// racingApply: an upcasting replay through a chain P0->..->Pk whose upcasters take a moment, while two other goroutines
+// keep registering upcasters between other names (regcall/regret: TLC places their critical sections) and clearing
+// names nobody uses.  Upcasting must terminate with the chain's result; nothing may be left blocked.
+func racingApply(rnd *rand.Rand) (lines [][]byte) {
+	var mu sync.Mutex
+	emit := func(m map[string]any) {
+		b, _ := json.Marshal(m)
+		mu.Lock()
+		lines = append(lines, b)
+		mu.Unlock()
+	}
+	store := eb.NewMemoryStore()
+	var errh atomic.Int64
+	bus := eb.New(eb.WithStore(store), eb.WithUpcastErrorHandler(func(t string, d json.RawMessage, err error) { errh.Add(1) }))
+	emit(map[string]any{"e": "new"})
+	var uidMu sync.Mutex
+	uid := 0
+	nextUID := func() int { uidMu.Lock(); defer uidMu.Unlock(); uid++; return uid }
+	k := 2 + rnd.IntN(2) // the trace specification knows the names P0..P3
+	pause := time.Duration(50+rnd.IntN(400)) * time.Microsecond
+	for i := 0; i < k; i++ {
+		id := nextUID()
+		to := "P" + strconv.Itoa(i+1)
+		fn := func(data json.RawMessage) (json.RawMessage, string, error) {
+			time.Sleep(pause)
+			var d upDoc
+			if err := json.Unmarshal(data, &d); err != nil {
+				return nil, "", err
+			}
+			d.Path = append(d.Path, id)
+			out, _ := json.Marshal(d)
+			return out, to, nil
+		}
+		res := "ok"
+		if err := eb.RegisterUpcastFunc(bus, "P"+strconv.Itoa(i), to, fn); err != nil {
+			res = "err"
+		}
+		emit(map[string]any{"e": "reg", "from": "P" + strconv.Itoa(i), "to": to, "nil": false, "uid": id, "ret": to, "fails": false, "res": res})
+	}
+	ts := time.Date(2024, 5, 6, 7, 8, 9, 10, time.UTC)
+	data, _ := json.Marshal(upDoc{Path: []int{}, Seed: "s"})
+	off, _ := store.Append(context.Background(), &eb.Event{Type: "P0", Data: data, Timestamp: ts})
+	done := make(chan struct{}, 3)
+	stop := make(chan struct{})
+	go func() { // the replay
+		defer func() { done <- struct{}{} }()
+		var got *eb.StoredEvent
+		err := bus.ReplayWithUpcast(context.Background(), eb.OffsetOldest, func(se *eb.StoredEvent) error { got = se; return nil })
+		ev := map[string]any{"e": "apply", "t": "P0", "hung": false, "out": "", "path": []int{}, "orig": false, "meta": false, "errh": int(errh.Load())}
+		if got != nil {
+			var d upDoc
+			json.Unmarshal(got.Data, &d)
+			if d.Path == nil {
+				d.Path = []int{}
+			}
+			ev["out"], ev["path"] = got.Type, d.Path
+			ev["orig"] = got.Type == "P0" && string(got.Data) == string(data)
+			ev["meta"] = got.Offset == off && got.Timestamp.Equal(ts) && err == nil
+		}
+		emit(ev)
+	}()
+	others := []string{"A", "B", "C", "D", "E", "F"}
+	noop := func(d json.RawMessage) (json.RawMessage, string, error) { return d, "x", nil }
+	for g := 1; g <= 2; g++ {
+		seed := rnd.Uint64()
+		go func(g int) {
+			defer func() { done <- struct{}{} }()
+			lr := rand.New(rand.NewPCG(seed, uint64(g)))
+			for i := 0; i < 40; i++ {
+				select {
+				case <-stop:
+					return
+				default:
+				}
+				if lr.IntN(4) == 0 {
+					t := "Q" + strconv.Itoa(lr.IntN(4))
+					bus.ClearUpcastsForType(t)
+					emit(map[string]any{"e": "cleartype", "t": t})
+					continue
+				}
+				from, to := others[lr.IntN(len(others))], others[lr.IntN(len(others))]
+				emit(map[string]any{"e": "regcall", "g": g, "from": from, "to": to, "uid": nextUID()})
+				res := "ok"
+				if err := eb.RegisterUpcastFunc(bus, from, to, noop); err != nil {
+					res = "err"
+				}
+				emit(map[string]any{"e": "regret", "g": g, "res": res})
+			}
+		}(g)
+	}
+	deadline := time.After(5 * time.Second)
+	for n := 0; n < 3; n++ {
+		select {
+		case <-done:
+		case <-deadline:
+			close(stop)
+			mu.Lock()
+			defer mu.Unlock()
+			// whatever is still running is blocked inside the registry; cut pending calls off the trace and report the hang
+			var cut [][]byte
+			for _, l := range lines {
+				cut = append(cut, l)
+			}
+			b, _ := json.Marshal(map[string]any{"e": "apply", "t": "P0", "hung": true, "out": "", "path": []int{}, "orig": false, "meta": false, "errh": 0})
+			return append(cut, b)
+		}
+	}
 	return lines
 }
 
@@ -325,7 +439,7 @@ func typedChain(r *core.Run, rnd *rand.Rand, n int) {
 }
 
 func upcastCheck(r *core.Run, prop string) {
-	r.Rule = "exhaustive TLC run of MCUpcast (every registry over 3 names with up to 3 edges, every returned-type and failure assignment: the transcribed DFS agrees with reachability, the declared graph stays acyclic, apply terminates); TLC-generated and random sequences of RegisterUpcastFunc (honest, lying and failing raw upcasters, nil function, empty names) / ClearUpcasts / ClearUpcastsForType / ReplayWithUpcast executed on the real bus under a watchdog and validated against UpcastTrace.tla; racing registrations validated with TLC placing the critical sections; typed upcaster chains compared with f applied to the decoded source; a case is one operation sequence"
+	r.Rule = "exhaustive TLC run of MCUpcast (every registry over 3 names with up to 3 edges, every returned-type and failure assignment: the transcribed DFS agrees with reachability, the declared graph stays acyclic, apply terminates); TLC-generated and random sequences of RegisterUpcastFunc (honest, lying and failing raw upcasters, nil function, empty names) / ClearUpcasts / ClearUpcastsForType / ReplayWithUpcast executed on the real bus under a watchdog and validated against UpcastTrace.tla; racing registrations validated with TLC placing the critical sections; registrations and clears racing with an upcasting replay through a slow chain (terminates with the chain's result, nothing left blocked); typed upcaster chains compared with f applied to the decoded source; a case is one operation sequence"
 	r.MustHold(core.TLCOpts{Module: "MCUpcast", Config: pickCfg(r, "MCUpcast.cfg", "MCUpcast_thorough.cfg"), Timeout: 30 * time.Minute})
 	res, err := r.TLC(core.TLCOpts{Module: "MCUpcast", Config: "MCUpcast_gen.cfg", Workers: 1, HeapMB: 4000, Timeout: 10 * time.Minute,
 		Args: []string{"-simulate", "num=" + strconv.Itoa(r.Pick(300, 5000)), "-depth", "12", "-seed", strconv.FormatInt(r.Seed, 10)}})
@@ -370,6 +484,20 @@ func upcastCheck(r *core.Run, prop string) {
 		r.Case(fmt.Sprintf("race/%d", i))
 	}
 	validateUpcast(r, strings.ToLower(prop)+"-race", race)
+	// registrations and clears racing with a running upcast
+	var ra []core.Segment
+	hangs = 0
+	for i := 0; i < r.Pick(150, 2500); i++ {
+		lines := racingApply(rnd)
+		ra = append(ra, core.Segment{Label: fmt.Sprintf("%s-raceapply-%d", strings.ToLower(prop), i), Lines: lines, Meta: "registrations racing with an upcasting replay"})
+		r.Case(fmt.Sprintf("raceapply/%d", i))
+		if strings.Contains(string(lines[len(lines)-1]), `"hung":true`) {
+			if hangs++; hangs >= 3 { // each hang costs the watchdog's 5 s: three are enough to report
+				break
+			}
+		}
+	}
+	validateUpcast(r, strings.ToLower(prop)+"-raceapply", ra)
 	if prop == "C17" {
 		typedChain(r, rnd, r.Pick(200, 3000))
 	}
